@@ -22,6 +22,7 @@ PLAN = {
                 oracle=lambda h: T.fix_cases(h, False)[1] + [("C17",) + f[1:] for f in T.oracle_components(h) if f[0] == "C02"],
                 slices=["fixrun", "comp"], ref="§7 C17"),
     "C16": dict(families=[("skin", 30, 300)], oracle=lambda h: T.skin_cases(h)[1], slices=["skin"], ref="§7 C16"),
+    "C03": dict(families=[("join", 36, 360)], oracle=lambda h: T.oracle_join(h), slices=["snapj"], ref="§7 C03"),
     "C06": dict(families=[("asset", 36, 360)], oracle=lambda h: T.oracle_assets(h), slices=["asset"], ref="§7 C06"),
     "C08": dict(families=[("fault", 96, 768)], oracle=lambda h: T.oracle_fault(h), slices=["fault"], ref="§7 C08"),
 }
@@ -63,7 +64,7 @@ def slice_lines(h, kind, flags):
 
 def read_flags():
     flags = {}
-    for f in ("Sync.lean", "Guards.lean", "Conn.lean", "Asset.lean"):
+    for f in ("Sync.lean", "Guards.lean", "Conn.lean", "Asset.lean", "Snap.lean", "Ent.lean"):
         p = os.path.join(C.LEAN, "BevySyncModel", "Generated", f)
         if os.path.exists(p):
             for m in re.finditer(r"def (\w+) : Bool := (true|false)", open(p).read()):
@@ -138,6 +139,10 @@ def check(prop_id, tier, seed, replay=None):
             for l in T.asset_lines(h, flags.get("assetTokensCounted", True), flags.get("assetRequestSkipsServed", False)):
                 inst_of[l.split(" ")[1]] = (h, {})
                 lines.append(l)
+        if "snapj" in plan["slices"]:
+            for l in T.snap_lines(h):
+                inst_of[l.split(" ")[1]] = (h, {})
+                lines.append(l)
         if "mark" in plan["slices"]:
             for l in T.mark_lines(h, not flags.get("detectSeesNewSyncEntity", True)):
                 inst_of[l.split(" ")[1]] = (h, {})
@@ -146,7 +151,7 @@ def check(prop_id, tier, seed, replay=None):
             for l in T.fix_cases(h, flags.get("fixReinsertsValue", False))[0]:
                 inst_of[l.split(" ")[1]] = (h, {})
                 lines.append(l)
-        for kind in [k for k in plan["slices"] if k not in ("fault", "skin", "fixrun", "filter", "conn", "asset", "mark")]:
+        for kind in [k for k in plan["slices"] if k not in ("fault", "skin", "fixrun", "filter", "conn", "asset", "mark", "snapj")]:
             for inst, ls, meta in slice_lines(h, kind, flags):
                 if ls is None:
                     skipped += 1
@@ -183,14 +188,14 @@ def check(prop_id, tier, seed, replay=None):
     for h, f in oracle_fails:
         if f[0] != prop_id and not (prop_id == "C08"):
             continue
-        key = h.id
-        if key in seen:
-            continue
-        seen.add(key)
         matched = [k for k in known_here if k.get("match") and k["match"] in f[1]]
         if matched:
             known_lines.append("KNOWN-FINDING: property=%s %s" % (prop_id, matched[0]["what"]))
             continue
+        key = h.id
+        if key in seen:
+            continue
+        seen.add(key)
         path = C.write_replay(prop_id, h.id, {"property": prop_id, "kind": "implementation-oracle", "what": f[1], "detail": f[2],
                                               "history": history_summary(h),
                                               "regenerate": "harness/target/debug/session %s <seed> <count> %s  (history ids are <family>-<seed>-<index>; the Update schedule order is random per run)" % (h.family, tier)})
